@@ -183,6 +183,20 @@ type scen struct {
 	tw    *vh.TraceWriter
 	res   *vh.Result
 	ghost []attribute.Key
+	its   [nIts + 1]*randIt // iterator variables 1..nIts
+	sink  func(ev map[string]any) // where events go (nil: straight to the trace)
+}
+
+const (
+	nRegs = 4 // Set registers of a sequential scenario
+	nIts  = 6 // iterator variables (NI in Trace_AttrSet.tla)
+)
+
+// randIt is one iterator variable of a random program.
+type randIt struct {
+	realIt
+	n        int  // Len of the iterated sequence (to size walks; never used to judge)
+	lastTrue bool // the last Next returned true and no ToSlice since: Attribute is defined
 }
 
 func (s *scen) absList(l []item) []AAttr {
@@ -223,6 +237,10 @@ func (s *scen) genList(long bool) []item {
 
 func (s *scen) emit(ev map[string]any) {
 	ev["sc"] = s.sc
+	if s.sink != nil {
+		s.sink(ev)
+		return
+	}
 	s.tw.Emit(ev)
 }
 
@@ -243,8 +261,24 @@ func (s *scen) countLen(n int) {
 
 func (s *scen) build(long bool) {
 	r := s.r
-	dst := 1 + r.Intn(4)
+	dst := 1 + r.Intn(nRegs)
 	l := s.genList(long)
+	how := pick(r, "NewSet", "NewSet", "Sortable", "Filtered", "Filtered", "SortableFiltered")
+	if len(l) == 0 && r.Intn(2) == 0 {
+		how = pick(r, "Zero", "EmptySet")
+	}
+	p := Pred{Kind: "nil", Ks: []int{}, Ts: []string{}}
+	if how == "Filtered" || how == "SortableFiltered" {
+		p = genPred(r, s.K)
+	}
+	s.regs[dst] = s.buildWith(r, dst, l, how, p, "")
+	s.lists = append(s.lists, l)
+}
+
+// buildWith constructs a Set from the abstract list through the named constructor, records the
+// Build event (Set contents, the caller's slice after the call, the removed attributes) and
+// returns the Set.  Everything random comes from r (the concurrent phase passes its own).
+func (s *scen) buildWith(r *rand.Rand, dst int, l []item, how string, p Pred, tag string) attribute.Set {
 	abs := s.absList(l)
 	kvs := make([]attribute.KeyValue, len(l))
 	for i, a := range abs {
@@ -253,11 +287,6 @@ func (s *scen) build(long bool) {
 	if len(kvs) == 0 && r.Intn(2) == 0 {
 		kvs = nil
 	}
-	how := pick(r, "NewSet", "NewSet", "Sortable", "Filtered", "Filtered", "SortableFiltered")
-	if len(l) == 0 && r.Intn(2) == 0 {
-		how = pick(r, "Zero", "EmptySet")
-	}
-	p := Pred{Kind: "nil", Ks: []int{}, Ts: []string{}}
 	var set attribute.Set
 	var dropped []attribute.KeyValue
 	var tmp attribute.Sortable
@@ -267,19 +296,22 @@ func (s *scen) build(long bool) {
 	case "Sortable":
 		set = attribute.NewSetWithSortable(kvs, &tmp)
 	case "Filtered":
-		p = genPred(r, s.K)
 		set, dropped = attribute.NewSetWithFiltered(kvs, s.km.filter(p))
 	case "SortableFiltered":
-		p = genPred(r, s.K)
 		set, dropped = attribute.NewSetWithSortableFiltered(kvs, &tmp, s.km.filter(p))
 	case "Zero":
 		set = attribute.Set{}
 	case "EmptySet":
 		set = *attribute.EmptySet()
 	}
-	s.regs[dst] = set
-	s.lists = append(s.lists, l)
 	s.countLen(set.Len())
+	route := map[string]string{"NewSet": "New", "Sortable": "New", "Filtered": "NewF", "SortableFiltered": "NewF"}[how]
+	if route != "" {
+		s.res.Count(fmt.Sprintf("%ssize_%s_%d", tag, route, set.Len()), 1)
+		if len(dropped) > 0 {
+			s.res.Count(fmt.Sprintf("%ssize_%sDrop_%d", tag, route, set.Len()), 1)
+		}
+	}
 	if len(l) > 100 {
 		s.res.Count("long_lists", 1)
 	}
@@ -289,31 +321,46 @@ func (s *scen) build(long bool) {
 	if len(l) > set.Len()+len(dropped) {
 		s.res.Count("builds_with_superseded", 1)
 	}
-	s.emit(map[string]any{"ev": "Build", "dst": dst, "how": how, "list": abs, "pred": p, "obs": map[string]any{
-		"slice": s.km.abstractAll(set.ToSlice()), "after": s.km.abstractAll(kvs), "dropped": s.km.abstractAll(dropped),
-		"len": set.Len(), "selfEq": selfEqual(&set)}})
+	obs := map[string]any{"after": s.km.abstractAll(kvs), "dropped": s.km.abstractAll(dropped)}
+	// the caller re-uses its slice and the returned list of removed attributes: the Set is immutable
+	scribble(kvs)
+	scribble(dropped)
+	obs["slice"], obs["len"], obs["selfEq"] = s.km.abstractAll(set.ToSlice()), set.Len(), selfEqual(&set)
+	s.emit(map[string]any{"ev": "Build", "dst": dst, "how": how, "list": abs, "pred": p, "obs": obs})
+	return set
 }
 
 func (s *scen) filter() {
-	src, dst := 1+s.r.Intn(4), 1+s.r.Intn(4)
-	p := genPred(s.r, s.K)
-	orig := s.regs[src]
-	kept, dropped := orig.Filter(s.km.filter(p))
-	if len(dropped) > 0 {
-		s.res.Count("filters_with_dropped", 1)
-	}
-	s.countLen(kept.Len())
-	s.emit(map[string]any{"ev": "Filter", "src": src, "dst": dst, "pred": p, "obs": map[string]any{
-		"slice": s.km.abstractAll(kept.ToSlice()), "dropped": s.km.abstractAll(dropped),
-		"orig": s.km.abstractAll(orig.ToSlice()), "selfEq": selfEqual(&kept)}})
-	s.regs[src] = orig
+	src, dst := 1+s.r.Intn(nRegs), 1+s.r.Intn(nRegs)
+	kept := s.filterWith(src, dst, &s.regs[src], genPred(s.r, s.K), "")
 	s.regs[dst] = kept
 }
 
+// filterWith applies Set.Filter to *orig and records the Filter event (kept Set, removed list,
+// the original afterwards).  orig is only read.
+func (s *scen) filterWith(src, dst int, orig *attribute.Set, p Pred, tag string) attribute.Set {
+	kept, dropped := orig.Filter(s.km.filter(p))
+	if len(dropped) > 0 {
+		s.res.Count(tag+"filters_with_dropped", 1)
+		s.res.Count(fmt.Sprintf("%ssize_FilterDrop_%d", tag, kept.Len()), 1)
+	}
+	s.res.Count(fmt.Sprintf("%ssize_Filter_%d", tag, kept.Len()), 1)
+	s.countLen(kept.Len())
+	obs := map[string]any{"dropped": s.km.abstractAll(dropped)}
+	scribble(dropped) // the removed list is the caller's; neither Set may notice
+	obs["slice"], obs["orig"], obs["selfEq"] = s.km.abstractAll(kept.ToSlice()), s.km.abstractAll(orig.ToSlice()), selfEqual(&kept)
+	s.emit(map[string]any{"ev": "Filter", "src": src, "dst": dst, "pred": p, "obs": obs})
+	return kept
+}
+
 func (s *scen) merge() {
-	a, b := 1+s.r.Intn(4), 1+s.r.Intn(4)
-	mi := attribute.NewMergeIterator(&s.regs[a], &s.regs[b])
-	var merged []attribute.KeyValue
+	a, b := 1+s.r.Intn(nRegs), 1+s.r.Intn(nRegs)
+	s.mergeWith(a, b, &s.regs[a], &s.regs[b])
+}
+
+func (s *scen) mergeWith(a, b int, sa, sb *attribute.Set) {
+	mi := attribute.NewMergeIterator(sa, sb)
+	merged := []attribute.KeyValue{}
 	for mi.Next() {
 		merged = append(merged, mi.Attribute())
 	}
@@ -321,7 +368,7 @@ func (s *scen) merge() {
 }
 
 func (s *scen) record() {
-	src := 1 + s.r.Intn(4)
+	src := 1 + s.r.Intn(nRegs)
 	d := s.regs[src].Equivalent()
 	var idx int
 	if e, ok := s.tab[d]; ok {
@@ -337,20 +384,27 @@ func (s *scen) record() {
 }
 
 func (s *scen) cmp() {
-	a, b := 1+s.r.Intn(4), 1+s.r.Intn(4)
-	eq := s.regs[a].Equals(&s.regs[b])
+	a, b := 1+s.r.Intn(nRegs), 1+s.r.Intn(nRegs)
+	s.cmpWith(a, b, &s.regs[a], &s.regs[b], "")
+}
+
+func (s *scen) cmpWith(a, b int, sa, sb *attribute.Set, tag string) {
+	eq := sa.Equals(sb)
 	if eq {
-		s.res.Count("cmp_equal", 1)
+		s.res.Count(tag+"cmp_equal", 1)
 	} else {
-		s.res.Count("cmp_unequal", 1)
+		s.res.Count(tag+"cmp_unequal", 1)
 	}
 	s.emit(map[string]any{"ev": "Cmp", "a": a, "b": b, "obs": map[string]any{
-		"eq": eq, "eqr": s.regs[b].Equals(&s.regs[a]), "key": s.regs[a].Equivalent() == s.regs[b].Equivalent()}})
+		"eq": eq, "eqr": sb.Equals(sa), "key": sa.Equivalent() == sb.Equivalent()}})
 }
 
 func (s *scen) obs() {
-	src := 1 + s.r.Intn(4)
-	set := &s.regs[src]
+	src := 1 + s.r.Intn(nRegs)
+	s.obsWith(src, &s.regs[src])
+}
+
+func (s *scen) obsWith(src int, set *attribute.Set) {
 	m := &machine{km: s.km}
 	var o Out
 	m.observe(set, s.K, &o)
@@ -361,8 +415,164 @@ func (s *scen) obs() {
 		}
 	}
 	s.emit(map[string]any{"ev": "Obs", "src": src, "obs": map[string]any{
-		"slice": s.km.abstractAll(set.ToSlice()), "len": o.Len, "iter": o.Iter, "look": o.Look, "ghost": ghost,
+		"slice": s.km.abstractAll(set.ToSlice()), "len": o.Len, "iter": o.Iter, "look": o.Look, "get": o.Get, "ghost": ghost,
 		"enc": set.Encoded(attribute.DefaultEncoder()), "selfEq": o.SelfEq}})
+}
+
+func (s *scen) encWith(src int, set *attribute.Set) {
+	s.emit(map[string]any{"ev": "Enc", "src": src, "obs": map[string]any{"enc": set.Encoded(attribute.DefaultEncoder())}})
+}
+
+// ---- iterator histories
+
+// itOpen binds an iterator variable to a fresh Iterator over a register's Set (a heap copy: the
+// register may be overwritten later, the Set the iterator walks is immutable) or to a
+// MergeIterator over two of them.
+func (s *scen) itOpen() {
+	r := s.r
+	slot, a, b := 1+r.Intn(nIts), 1+r.Intn(nRegs), 1+r.Intn(nRegs)
+	kind := "set"
+	if r.Intn(10) < 3 {
+		kind = "merge"
+	}
+	s.its[slot] = s.openIt(slot, kind, a, b, &s.regs[a], &s.regs[b])
+}
+
+func (s *scen) openIt(slot int, kind string, a, b int, sa, sb *attribute.Set) *randIt {
+	it := &randIt{}
+	it.a, it.b = new(attribute.Set), new(attribute.Set)
+	*it.a, *it.b = *sa, *sb
+	if kind == "merge" {
+		it.merge = true
+		it.mi = attribute.NewMergeIterator(it.a, it.b)
+		it.n = it.a.Len() + it.b.Len()
+		s.res.Count("iter_open_merge", 1)
+	} else {
+		it.it = it.a.Iter()
+		it.n = it.a.Len()
+		s.res.Count("iter_open_set", 1)
+	}
+	s.emit(map[string]any{"ev": "ItOpen", "it": slot, "kind": kind, "a": a, "b": b})
+	return it
+}
+
+// itCall performs one call and records it with its return value.
+func (s *scen) itCall(slot int, it *randIt, op string) {
+	cop, how := op, ""
+	switch op {
+	case "Attribute", "IndexedAttribute", "Label", "IndexedLabel":
+		cop, how = "Attr", op
+	}
+	o := it.call(s.km, cop, how)
+	switch op {
+	case "Next":
+		it.lastTrue = o.B
+		if !o.B {
+			s.res.Count("iter_next_false", 1)
+		}
+	case "ToSlice":
+		if it.lastTrue {
+			s.res.Count("iter_toslice_midway", 1)
+		}
+		it.lastTrue = false
+	}
+	s.res.Count("iter_"+op, 1)
+	s.emit(map[string]any{"ev": "ItOp", "it": slot, "op": op, "obs": o})
+}
+
+// pickItOp chooses the next call: accessors only where the documentation defines them.
+func pickItOp(r *rand.Rand, it *randIt, sliceWeight int) string {
+	n := r.Intn(100)
+	switch {
+	case it.lastTrue && n < 35:
+		if it.merge {
+			return pick(r, "Attribute", "Attribute", "Label")
+		}
+		return pick(r, "Attribute", "IndexedAttribute", "IndexedAttribute", "Label", "IndexedLabel")
+	case !it.merge && n < 35+sliceWeight:
+		return "ToSlice"
+	case !it.merge && n < 45+sliceWeight:
+		return "Len"
+	}
+	return "Next"
+}
+
+// itOps: a burst of calls spread over the open iterator variables (long enough to walk whole
+// Sets, to run past the end, to take slices midway and more than once).
+func (s *scen) itOps(big bool) {
+	r := s.r
+	var open []int
+	for i := 1; i <= nIts; i++ {
+		if s.its[i] != nil {
+			open = append(open, i)
+		}
+	}
+	if len(open) == 0 {
+		s.itOpen()
+		return
+	}
+	focus := open[r.Intn(len(open))]
+	k := 2 + r.Intn(2*s.its[focus].n+8)
+	sliceWeight := 8
+	if big {
+		sliceWeight = 1
+	}
+	for ; k > 0; k-- {
+		slot := focus
+		if r.Intn(4) == 0 {
+			slot = open[r.Intn(len(open))]
+		}
+		s.itCall(slot, s.its[slot], pickItOp(r, s.its[slot], sliceWeight))
+	}
+}
+
+// sweep drives every distinct-count 0..13 exactly through each constructor and through
+// Set.Filter (the fixed-size array cases 1..10 and the reflective path beyond).
+func (s *scen) sweep() {
+	r := s.r
+	top := 13
+	if s.K < top {
+		top = s.K
+	}
+	pv := func() int { return r.Intn(len(s.pool)) }
+	// distinct: a list over exactly the given ranks with superseded duplicates, shuffled
+	distinct := func(ranks []int) []item {
+		l := []item{}
+		for _, k := range ranks {
+			for c := 1 + r.Intn(2)*r.Intn(3); c > 0; c-- {
+				l = append(l, item{k: k, v: pv()})
+			}
+		}
+		r.Shuffle(len(l), func(i, j int) { l[i], l[j] = l[j], l[i] })
+		return l
+	}
+	for _, d := range r.Perm(top + 1) {
+		ranks := r.Perm(s.K)
+		for i := range ranks {
+			ranks[i]++
+		}
+		n := d + r.Intn(s.K-d+1)
+		keep, all := ranks[:d], ranks[:n]
+		allow := Pred{Kind: "allow", Ks: append([]int{s.K + 1 + r.Intn(3)}, keep...), Ts: []string{}}
+		deny := Pred{Kind: "deny", Ks: append([]int{s.K + 1}, all[d:]...), Ts: []string{}}
+		p := allow
+		if r.Intn(2) == 0 {
+			p = deny
+		}
+		nilp := Pred{Kind: "nil", Ks: []int{}, Ts: []string{}}
+		dst := 1 + r.Intn(nRegs)
+		s.regs[dst] = s.buildWith(r, dst, distinct(keep), pick(r, "NewSet", "Sortable"), nilp, "")
+		dst = 1 + r.Intn(nRegs)
+		s.regs[dst] = s.buildWith(r, dst, distinct(all), pick(r, "Filtered", "SortableFiltered"), p, "")
+		src := 1 + r.Intn(nRegs)
+		s.regs[src] = s.buildWith(r, src, distinct(all), "NewSet", nilp, "")
+		dst = 1 + r.Intn(nRegs)
+		s.regs[dst] = s.filterWith(src, dst, &s.regs[src], p, "")
+		if r.Intn(3) == 0 {
+			s.obs()
+		}
+	}
+	s.res.Count("sweeps", 1)
 }
 
 func pickK(r *rand.Rand) int {
@@ -377,15 +587,10 @@ func pickK(r *rand.Rand) int {
 	return 14 + r.Intn(27)
 }
 
-func scenario(r *rand.Rand, sc int, long, big bool, tw *vh.TraceWriter, res *vh.Result) {
+// newScen chooses the key table and the value pool of one scenario and records its New event.
+func newScen(r *rand.Rand, sc, K int, big bool, extra []AVal, nregs int, tw *vh.TraceWriter, res *vh.Result) *scen {
 	s := &scen{r: r, sc: sc, tw: tw, res: res, tab: map[attribute.Distinct]*tabEntry{}}
-	s.K = pickK(r)
-	if long {
-		s.K = 30 + r.Intn(20)
-	}
-	if big {
-		s.K = 1 + r.Intn(3)
-	}
+	s.K = K
 	idx := r.Perm(len(keyUniverse))[:s.K]
 	sort.Ints(idx)
 	if r.Intn(2) == 0 {
@@ -414,10 +619,42 @@ func scenario(r *rand.Rand, sc int, long, big bool, tw *vh.TraceWriter, res *vh.
 			s.pool = append(s.pool, v)
 		}
 	}
+	for _, v := range extra {
+		if k := valKey(v.T, v.X); !seen[k] {
+			seen[k] = true
+			v.E = valText(v)
+			s.pool = append(s.pool, v)
+		}
+	}
 	for i := range s.regs {
 		s.regs[i] = attribute.NewSet()
 	}
-	s.emit(map[string]any{"ev": "New", "kesc": kesc, "vals": s.pool, "keys": keys})
+	s.emit(map[string]any{"ev": "New", "kesc": kesc, "vals": s.pool, "keys": keys, "nregs": nregs})
+	return s
+}
+
+func scenario(r *rand.Rand, sc int, long, big, sweep bool, tw *vh.TraceWriter, res *vh.Result) {
+	K := pickK(r)
+	if long {
+		K = 30 + r.Intn(20)
+	}
+	if big {
+		K = 1 + r.Intn(3)
+	}
+	if sweep {
+		K = 13 + r.Intn(8)
+	}
+	s := newScen(r, sc, K, big, nil, nRegs, tw, res)
+	if sweep {
+		func() {
+			defer func() {
+				if p := recover(); p != nil {
+					res.AddMismatch(vh.Mismatch{Kind: "panic", Case: map[string]any{"why": "panic", "sc": sc}, Detail: fmt.Sprint(p)})
+				}
+			}()
+			s.sweep()
+		}()
+	}
 	nops := 6 + r.Intn(20)
 	if long {
 		nops = 8
@@ -429,7 +666,7 @@ func scenario(r *rand.Rand, sc int, long, big bool, tw *vh.TraceWriter, res *vh.
 					res.AddMismatch(vh.Mismatch{Kind: "panic", Case: map[string]any{"why": "panic", "sc": sc}, Detail: fmt.Sprint(p)})
 				}
 			}()
-			switch n := r.Intn(100); {
+			switch n := r.Intn(118); {
 			case n < 35 || i == 0:
 				s.build(long)
 			case n < 50:
@@ -440,8 +677,12 @@ func scenario(r *rand.Rand, sc int, long, big bool, tw *vh.TraceWriter, res *vh.
 				s.record()
 			case n < 90:
 				s.filter()
-			default:
+			case n < 100:
 				s.merge()
+			case n < 106:
+				s.itOpen()
+			default:
+				s.itOps(big)
 			}
 		}()
 	}
@@ -461,7 +702,7 @@ func random(args []string) {
 	vh.Must(err)
 	res := vh.NewResult()
 	for sc := 0; sc < *n; sc++ {
-		scenario(r, sc, sc < *nlong, sc >= *nlong && sc < 2**nlong, tw, res)
+		scenario(r, sc, sc < *nlong, sc >= *nlong && sc < 2**nlong, sc >= 2**nlong && sc%25 == 3, tw, res)
 	}
 	vh.Must(tw.Close())
 	res.Count("trace_lines", tw.N)
